@@ -77,6 +77,10 @@ class PiConfig(SSEConfig):
 
         self.param_identifier_size = config_dict.get("param_identifier_size")
 
+        for length_param in ("param_lambda", "param_k", "param_k_prime", "param_l", "param_l_prime"):
+            if not isinstance(getattr(self, length_param), int) or getattr(self, length_param) <= 0:
+                raise ValueError("Parameter {} should be a positive integer".format(length_param))
+
         self.prf = toolkit.prf.get_prf_implementation(config_dict.get("prf", ""))(
             output_length=self.param_k + self.param_k_prime + self.param_l + self.param_l_prime)
 
